@@ -895,6 +895,9 @@ func deserializeArrowSerializable(targetType reflect.Type, data []byte) (reflect
 		}
 
 		col := batch.Column(colIdx)
+		if col.Len() < 1 {
+			return reflect.Value{}, fmt.Errorf("ArrowSerializable field %s: batch has no rows, expected 1", tag)
+		}
 		if col.IsNull(0) {
 			continue
 		}
